@@ -218,8 +218,8 @@ class Assembled:
         return len(self.lines) + 1
 
 
-def assemble(vacuity=False, only_files=None, extra_theorems=True):
-    out_rs, meta = run_extractor()
+def assemble(vacuity=False, only_files=None, extra_theorems=True, extracted=None):
+    out_rs, meta = extracted if extracted is not None else run_extractor()
     fns, loops, impl_extra = parse_contracts(os.path.join(VERIF, "contracts"))
     src = open(out_rs).read()
     A = Assembled()
@@ -236,6 +236,7 @@ def assemble(vacuity=False, only_files=None, extra_theorems=True):
     A.add("// ===================================================================== SPEC (RFC 9807 / RFC 9497)")
     A.add(open(os.path.join(VERIF, "verus", "spec_rfc.rs")).read())
     A.add("// ===================================================================== EXTRACTED from /repo/src")
+    A.extracted_start = A.lineno()
 
     used_fn_contracts = set()
     used_loops = set()
@@ -527,11 +528,35 @@ def assemble(vacuity=False, only_files=None, extra_theorems=True):
     if extra_theorems and os.path.exists(th_path) and only_files is None:
         th = open(th_path).read()
         if vacuity:
-            th = re.sub(r"//@vacuity\b", "false,", th)
+            th = vacuity_theorems(th)
         A.add(th)
     A.add("} // verus!")
     A.add("fn main() {}")
     return A
+
+
+def vacuity_theorems(text):
+    """every theorem with a `//@vacuity` marker gets a renamed copy `<name>__vac` that additionally ensures `false`
+    (the copy must FAIL); the original stays intact so that theorems calling it are not contaminated"""
+    lines = text.split("\n")
+    out, i, n = [], 0, len(lines)
+    while i < n:
+        m = re.match(r"^pub (proof |exec )?fn (\w+)", lines[i])
+        if not m:
+            out.append(lines[i]); i += 1
+            continue
+        j = i
+        while j < n and lines[j] not in ("}", "{}"):
+            j += 1
+        item = lines[i:j + 1]
+        out += item
+        if any("//@vacuity" in l for l in item):
+            dup = "\n".join(item)
+            dup = re.sub(r"\bfn (\w+)", lambda mm: "fn " + mm.group(1) + "__vac", dup, count=1)
+            dup = dup.replace("//@vacuity", "false,")
+            out += dup.split("\n")
+        i = j + 1
+    return "\n".join(out)
 
 
 def gen_from_spec(A, hdr_text, fn_lines):
@@ -655,6 +680,9 @@ def classify(A, res):
                 k = fn_of_line(ln)
                 if k:
                     failed_fns.setdefault(k, []).append(d.get("rendered", msg)); attributed = True; break
+                if ln < A.extracted_start and sp.get("file_name", "").endswith(".rs") and "/gen/" in sp.get("file_name", ""):
+                    # a lemma of the spec / prelude section
+                    theorem_fail.setdefault(theorem_at(A, ln), []).append(d.get("rendered", msg)); attributed = True; break
         if not attributed:
             hard.append(d.get("rendered", msg))
     return failed_clauses, failed_fns, theorem_fail, hard, rlimit
@@ -663,7 +691,7 @@ def classify(A, res):
 def theorem_at(A, ln):
     """name of the fn / proof fn in the theorem section containing line ln"""
     name = "?"
-    for q in range(A.theorem_start - 1, min(ln, len(A.lines))):
+    for q in range(0, min(ln, len(A.lines))):
         m = re.match(r"^\s*(pub\s+)?(broadcast\s+)?(proof\s+|exec\s+|spec\s+)?fn\s+(\w+)", A.lines[q])
         if m:
             name = m.group(4)
